@@ -15,7 +15,8 @@ hook_commits = []
 for p in props:
   pid = p['id']
   path = os.path.join(HERE, 'vf', 'props', pid.lower() + '.py')
-  if not os.path.exists(path):
+  ready = open(os.path.join(HERE, 'vf', 'props', 'READY')).read().split()
+  if not os.path.exists(path) or pid not in ready:
     na.append({'property_id': pid, 'reason': 'check not built yet (see DESIGN.md section 9); '
                'the technique applies and the property is planned'})
     continue
